@@ -368,6 +368,9 @@ func runProperty(id string, p propSpec, tier string, seed uint64, keep bool) int
 
 	infra := ""
 	regDir := filepath.Join(root, "regressions")
+	if d := os.Getenv("VERIF_REGDIR"); d != "" {
+		regDir = d // sensitivity runs against seeded changes must not pollute /verif/regressions
+	}
 	seenFail := map[string]bool{}
 	for _, r := range results {
 		if r.timed {
@@ -407,7 +410,11 @@ func runProperty(id string, p propSpec, tier string, seed uint64, keep bool) int
 			}
 			violations++
 			fmt.Printf("%s: %s\n", rf.Check, firstLines(rf.Message, 6))
-			violationLines = append(violationLines, fmt.Sprintf("VIOLATION property=%s replay=regressions/%s", id, name))
+			rel, err := filepath.Rel(root, dst)
+			if err != nil || strings.HasPrefix(rel, "..") {
+				rel = dst
+			}
+			violationLines = append(violationLines, fmt.Sprintf("VIOLATION property=%s replay=%s", id, rel))
 		}
 	}
 
